@@ -190,6 +190,14 @@ def run_schedule(F, case, sched, B, log, counters):
                     # prefer a type that agrees on the common prefix
                     if t2[:len(t1)] == t1[:len(t2)]:
                         break
+            if c % 3 == 0:
+                # a graph whose type was read once (as HRGRule validation does) and whose externals were changed afterwards
+                wrong = rule.rhs.copy()
+                _ = wrong.type
+                extra = F.Node(F.NodeLabel(sorted(spec['domains'])[0]))
+                wrong.ext = list(wrong.ext) + [extra]
+                wt = 'type-read-before-ext-changed'
+                counters.inc('probe.wrong-type.stale-type')
             if wrong is None:
                 wrong = F.Graph()
                 extra = F.Node(F.NodeLabel(sorted(spec['domains'])[0]))
@@ -364,7 +372,24 @@ def check_derive(F, case, B, model_nodes_labels, counters, log):
                 m_edges.append((e['label'], [find((pos, k)) for k in e['att']]))
     # the real derivation objects
 
+    shared = {}
+
+    def sig_of(pos, sub):
+        r_ = spec['rules'][sub[0]]
+        return (sub[0], tuple(value[find((pos, idx))] for idx in range(len(r_['nodes']))),
+                tuple(sig_of(pos + (j,), c_) for j, c_ in enumerate(sub[1])))
+
     def mk(pos, sub):
+        # identical sub-derivations (same rules, same values) may be one and the same object in the caller's tree
+        key = sig_of(pos, sub)
+        if key in shared and g.random() < 0.7:
+            counters.inc('probe.shared-subderivation-object')
+            return shared[key]
+        d_ = mk1(pos, sub)
+        shared[key] = d_
+        return d_
+
+    def mk1(pos, sub):
         ri = sub[0]
         r = spec['rules'][ri]
         asst = {B.nodes[(ri, idx)]: value[find((pos, idx))] for idx in range(len(r['nodes']))}
